@@ -54,7 +54,6 @@ func replayOne(r *ev.Run, path string) {
 	e := evalModel(after, in.Op)
 	fmt.Printf("model: mustErr=%v errAdmitted=%v result=%s state after={%s}\n", e.mustErr, e.errOK, render(e.obs), after.key(d.vars))
 	h := newHarness()
-	g := builtinGlobals()
 	r.Eval(1)
 	for _, mode := range []string{"api", "script"} {
 		if in.Mode == "api" && mode == "script" {
@@ -71,7 +70,7 @@ func replayOne(r *ev.Run, path string) {
 		} else {
 			src := scriptFor(d, in.Seq, in.Op)
 			fmt.Printf("script:\n%s\n", src)
-			out = runScriptStep(g, d, src)
+			out = runScriptStep(h, d, src, true)
 		}
 		fmt.Printf("%s: error=%v panic=%q", mode, out.isErr, out.panicked)
 		if out.res != nil {
